@@ -336,10 +336,14 @@ impl Session {
         }
     }
 
-    fn get_msg_ctr(&mut self) -> u32 {
+    fn get_msg_ctr(&mut self) -> Result<u32, Error> {
         let ctr = self.msg_ctr;
-        self.msg_ctr += 1;
-        ctr
+
+        // A message counter must never be reused with the same key: once the counter
+        // space of the session is exhausted, nothing more can be sent on it
+        self.msg_ctr = ctr.checked_add(1).ok_or(ErrorCode::InvalidState)?;
+
+        Ok(ctr)
     }
 
     pub fn get_dec_key(&self) -> Option<CanonAeadKeyRef<'_>> {
@@ -631,7 +635,7 @@ impl Session {
                 Err(ErrorCode::InvalidState)?
             }
         } else {
-            self.get_msg_ctr()
+            self.get_msg_ctr()?
         };
 
         // Include the Source Node ID for:
